@@ -10,6 +10,7 @@ import vf
 
 LEVEL = "model_checking"
 PARTS = 4          # driver + trace validation pipelines run side by side
+RAND = {"quick": (60, 60), "thorough": (5000, 1500)}   # seeded random splits per corpus stream / per long stream
 MAX_REPORT = 6     # VIOLATION lines per run (one per stream / kind of cut)
 
 
@@ -30,7 +31,7 @@ def _job_cost(job, n):
         return (job["to"] - job["from"] + 1) * 4
     if job["gen"] == "bytes":
         return n + 2
-    return job["count"] * 12
+    return job["count"] * 20
 
 
 def _stream_units(st, comps, rand_count, chunk):
@@ -137,7 +138,7 @@ def run(chk, replay=None):
             is_model = s["sid"].startswith("m")
             # quick: the compositions of a shape go to its first variant; thorough: to all variants
             use = comps.get(s["sid"][:2], []) if is_model and (not quick or s["sid"].endswith("a")) else []
-            u, desc = _stream_units(s, use, 60 if quick else 10000, chunk)
+            u, desc = _stream_units(s, use, RAND[chk.tier][s["sid"].startswith("L")], chunk)
             descs[s["sid"]] = desc
             units += u
         nparts = max(PARTS, -(-sum(c for c, _ in units) // chunk))
